@@ -157,6 +157,8 @@ def cases(tier, seed):
                             continue
                         if ci != (n // 7) % len(CONTEXTS) and not (ctx == 'dval' and bn in ('str', 'bytes') and flavour == 'Plain'):
                             continue
+                    elif flavour in ('Str', 'Both') and (vi + ci) % 3 != 0:
+                        continue        # thorough: a third of the contexts for the __str__ flavours
                     long_ = len(bv) > 40
                     out.append({'name': '%s:%s:%s' % (cname, bv[:20], ctx), 'family': 'subclass',
                                 'params': {'cls': cname, 'base_value': bv, 'context': ctx, 'slice': 'page'},
